@@ -17,6 +17,12 @@ TEXT = {
  "C01": ("seeded deterministic simulation of client/handler exchanges over a stub transport; oracle: received sequence == sent sequence in both directions + clean end",
          "Seeded search over scenarios x schedules x segmentations (not exhaustive). Exploration is the honest level: the quantifier ranges over all message sequences x ~100 configurations, which cannot be enumerated; what the simulator adds over the tests is control of read boundaries, windows, flush points, goroutine interleaving and pool reuse, with poisoned pooled buffers.",
          "5 C01"),
+ "C02": ("seeded deterministic simulation of failing handlers; oracle: client error == handler error (code, message bytes, details, metadata) and never success",
+         "Seeded search: the input dimension (codes, message classes, details, metadata) is seeded generation; what simulation adds is the k-messages-then-error histories under concurrent sender/receiver, early handler exit with a blocked sender, and the three error carriers (headers, HTTP trailers, in-body block) under adversarial segmentation.",
+         "5 C02"),
+ "C11": ("seeded deterministic simulation of header/trailer propagation; oracle: every key/value set by one side is observed by the other in per-key order",
+         "Seeded search over metadata multimaps x protocols x kinds x outcomes under adversarial schedules and segmentation; exploration is the honest level for an unbounded input space.",
+         "5 C11"),
 }
 
 hooks_commits = subprocess.run(["git", "-C", "/repo", "log", "--format=%H", "--grep=^verif:"], capture_output=True, text=True).stdout.split()
